@@ -80,9 +80,16 @@ TOL_GEN = F(1, 10**9)
 SCALE = 2**20
 
 
-def scale_value(rng):
-    """2^20 + k*2^-12: exact doubles whose pairwise relative gaps are ~2e-10 (strictly ordered, nearly tied)"""
-    return F(SCALE) + F(rng.randint(0, 3), 2**12)
+SCALE_BASES = [(2**20, 2**12), (2**20, 2**12), (2**10, 2**8), (0, 2**30)]
+
+
+def scale_value(rng, base=None):
+    """base + k/den, exact doubles, strictly ordered but nearly tied:
+       2^20 + k*2^-12 (relative gap 2e-10: below rel_tol 1e-9 and rtol 1e-5),
+       2^10 + k*2^-8  (relative gap 4e-6: inside np.isclose's default rtol 1e-5 only),
+       0    + k*2^-30 (absolute gap 9e-10: below np.isclose's default atol 1e-8)"""
+    b0, den = base or SCALE_BASES[0]
+    return F(b0) + F(rng.randint(0, 3), den)
 
 
 def gen_case(rng, tier):
@@ -148,22 +155,27 @@ def gen_case(rng, tier):
         iq = {"kind": "table", "table": [[str(F(rng.randint(-16, 16), 4)) for _ in range(nA)] for _ in range(n)]}
         temp, eps = rng.choice(["1/2", "2"]), rng.choice(["0", "0", "1/20"])
         alpha = rng.choice(["1/8", "1/2", "1"])
+        if rng.random() < .35:
+            # mixture weight 2^-27 / 2^-30 at temperature 0: below np.isclose's atol 1e-8, yet it moves the target
+            # by ~1e-9 * (max - mean), far above the 1e-12 fold tolerance
+            temp, eps, alpha = "0", str(F(1, 2**rng.choice([27, 30]))), rng.choice(["1/2", "1"])
     if not ties and not soft and rng.random() < .3:
         # reward-scale family: Q-values around 2^20 that differ by multiples of 2^-12 (relative gap < 1e-9):
         # the greedy policy must separate them exactly.  Step size 1 => Q = reward on terminal transitions.
         family = "scale"
+        sbase = rng.choice(SCALE_BASES)
         for k, row in m["trans"].items():
             s, a = map(int, k.split(","))
             if not m["absorbing"][s]:
                 for ns, p in row:
                     if F(p) > 0:
-                        m["reward"]["%d,%d,%d" % (s, a, ns)] = str(scale_value(rng))
+                        m["reward"]["%d,%d,%d" % (s, a, ns)] = str(scale_value(rng, sbase))
         alpha = "1" if rng.random() < .7 else rng.choice(ALPHAS)
         eps = "1" if rng.random() < .7 else rng.choice(EPSS)
         temp = "0"
         episodes = rng.choice([5, 8, 12, 20])
         if rng.random() < .6:
-            iq = {"kind": "table", "table": [[str(scale_value(rng)) for _ in range(nA)] for _ in range(n)]}
+            iq = {"kind": "table", "table": [[str(scale_value(rng, sbase)) for _ in range(nA)] for _ in range(n)]}
     if family == "scale" and rng.random() < .25:
         # large Q / temperature (> 709) on the softmax branch of the behaviour sampler (needs eps < 1): no overflow
         temp, eps = rng.choice(["1/2", "2"]), rng.choice(["0", "1/20"])
@@ -175,9 +187,52 @@ def gen_case(rng, tier):
         tiny, near1 = F(1, 2**20), 1 - F(1, 2**20)
         m["gamma"] = str(near1)
         alpha = str(rng.choice([tiny, near1, F(1), F(0)]))
-        eps = str(rng.choice([F(1, 2**30), near1, F(0), F(1)]))
-        skew_row(rng, m, tiny)
+        # 2^-27 / 2^-30: below np.isclose's atol 1e-8 yet visible (1e-9 relative) in expected SARSA's mixture weight
+        eps = str(rng.choice([F(1, 2**30), F(1, 2**27), near1, F(0), F(1)]))
+        skew_row(rng, m, rng.choice([tiny, F(1, 2**40)]))
         episodes = rng.choice([1, 2, 3])
+        if learner == "esarsa" and rng.random() < .6:
+            alpha, eps, temp = rng.choice(["1/2", "1"]), str(rng.choice([F(1, 2**30), F(1, 2**27)])), "0"
+            m["gamma"] = rng.choice(GAMMAS)
+    if family == "plain" and rng.random() < .16:
+        # non-dyadic family: thirds, tenths, sevenths everywhere (float row sums != 1.0, 0.1-type parameters incl.
+        # msdm's default step size); the model gets the rationals, msdm their nearest doubles, rewards are compared
+        # bit-exactly with the doubles msdm was given
+        family = "decimal"
+        m["gamma"] = rng.choice(["9/10", "19/20", "99/100", "2/3"])
+        alpha = rng.choice(["1/10", "1/10", "3/10", "1/3", "7/10"])
+        eps = rng.choice(["1/10", "1/20", "1/3", "0"])
+        splits = {1: [["1"]], 2: [["1/3", "2/3"], ["7/10", "3/10"], ["1/10", "9/10"]],
+                  3: [["1/3", "1/3", "1/3"], ["7/10", "1/5", "1/10"], ["1/7", "2/7", "4/7"]]}
+        for k, row in m["trans"].items():
+            pos = [i for i, (ns, p) in enumerate(row) if F(p) > 0]
+            sp = list(rng.choice(splits[len(pos)]))
+            rng.shuffle(sp)
+            for i, pr in zip(pos, sp):
+                row[i][1] = pr
+            s_, a_ = map(int, k.split(","))
+            if not m["absorbing"][s_]:
+                for ns, p in row:
+                    if F(p) > 0 and rng.random() < .8:
+                        m["reward"]["%d,%d,%d" % (s_, a_, ns)] = str(F(rng.randint(-30, 30), rng.choice([10, 10, 3, 7])))
+        pos = [i for i, (s_, p) in enumerate(m["init"]) if F(p) > 0]
+        sp = list(rng.choice(splits[len(pos)]))
+        for i, pr in zip(pos, sp):
+            m["init"][i][1] = pr
+        if rng.random() < .6:
+            iq = {"kind": "table", "table": [[str(F(rng.randint(-20, 20), 10)) for _ in range(nA)] for _ in range(n)]}
+        episodes = rng.choice([2, 3, 5, 8])
+    if family == "plain" and rng.random() < .06 and n >= 2:
+        # long-episode family: one state keeps looping onto itself w.p. 1 - 2^-11 under every action (~2000-step
+        # episodes; beyond the exact-fold cap, decided by the Fraction oracle)
+        family = "long"
+        sl = rng.choice([s_ for s_ in range(n) if not m["absorbing"][s_]])
+        ab = rng.choice([s_ for s_ in range(n) if m["absorbing"][s_]])
+        for a_ in m["actions"][sl]:
+            m["trans"]["%d,%d" % (sl, a_)] = [[sl, "2047/2048"], [ab, "1/2048"]]
+        m["init"] = [[sl, "1"]]
+        m["gamma"] = "1/2"
+        alpha, temp, episodes = rng.choice(["0", "1/2"]), "0", 1
     if learner == "esarsa" and temp != "0":
         episodes = rng.choice([1, 1, 2, 3])     # 44-bit probabilities enter the fold: keep it short
     if family == "softexp":
@@ -194,17 +249,24 @@ def gen_case(rng, tier):
     case = {"mdp": m, "learner": learner, "alpha": alpha, "eps": eps, "temp": temp, "family": family,
             "initial_q": iq, "episodes": episodes, "seed": seed, "global_seed": gseed,
             "labels": gen_labels(rng, m), "form": rng.choice(["quick", "quick", "class", "quickmdp", "quick_init_state"]),
-            "int_params": rng.random() < .3, "pretouch": rng.random() < .2}
+            "int_params": rng.random() < .3, "pretouch": rng.random() < .2, "int_rewards": rng.random() < .25,
+            "shared_actions": rng.random() < .6, "reuse_mdp_object": rng.random() < .5}
     if rng.random() < .3:
         # object reuse: the SAME learner object is trained on A, then on B (same state and action labels,
         # independently drawn absorbing set / action sets / transitions / rewards / discount), then on A again;
         # the runner also reuses the MDP OBJECT of A for the third call
+        nb = max(2, min(6, n + rng.choice([0, 0, -1, 1]))) if family != "long" else n   # B may differ in size
         for _ in range(40):
-            mb = gen_mdp.gen_mdp(rng, nmax=n, amax=3, gamma=rng.choice(GAMMAS), proper=True, min_states=n)
-            if mb["nA"] == nA:
+            mb = gen_mdp.gen_mdp(rng, nmax=nb, amax=3, gamma=rng.choice(GAMMAS), proper=True, min_states=nb)
+            if mb["nA"] == nA and family != "long":
                 case["stages"] = [m, mb, m]
                 case["episodes"] = min(episodes, 8)
+                big = m if n >= nb else mb
+                case["labels"] = gen_labels(rng, big)
                 case["labels"]["a_order"] = None   # action sets differ between the stages: ids in sorted order
+                if iq["kind"] == "table":
+                    while len(iq["table"]) < nb:
+                        iq["table"].append(list(rng.choice(iq["table"])))
                 break
     return case
 
@@ -273,6 +335,23 @@ def skew_row(rng, m, tiny):
     pos = [ns for ns, p in row if F(p) > 0]
     best = min(pos, key=lambda ns: dist.get(ns, n + 1))
     m["trans"][k] = [[ns, (str(1 - (len(pos) - 1) * tiny) if ns == best else str(tiny)) if F(p) > 0 else "0"] for ns, p in row]
+
+
+def exact_rewards(case, res):
+    """msdm was given float(rational) for every reward; a recorded reward that is bit-identical to that double denotes
+    the generator's rational (1/10, not the 55-bit rational of 0.1); any other float stays what it is and fails the
+    'the MDP's reward' clause.  Returns the number of non-dyadic rewards mapped."""
+    m, cnt = case["mdp"], 0
+    for e in res["episodes"]:
+        for st in e["steps"]:
+            if isinstance(st["r"], str):
+                continue
+            spec = F(m["reward"].get("%d,%d,%d" % (st["s"], st["a"], st["ns"]), "0"))
+            got = vlib.frac(st["r"])
+            if got != spec and float(spec) == float(got) and F(float(spec)) == got:
+                st["r_float"], st["r"] = st["r"], [spec.numerator, spec.denominator]
+                cnt += 1
+    return cnt
 
 
 def falsy_id(lab, which):
@@ -681,7 +760,11 @@ def run(ctx):
             bad = ("a second learner object with the default listener on the same MDP object returns a different table or episode rewards",
                    res.get("twin_detail"))
         if not res.get("policy_requery_ok", True) and not bad:
-            bad = ("policy answers differently when queried twice", {})
+            bad = ("policy answers differently when queried again (also after later train_on calls)", {})
+        if not res.get("inputs_untouched", True) and not bad:
+            bad = ("train_on / the policy mutated the caller's objects (action lists, distributions, rewards, initial_q table)", {})
+        if not res.get("stale_results_ok", True) and not bad:
+            bad = ("a returned Q-table changed after a later train_on / policy query", {})
         if res["keys_after_policy"] != res["keys"]:
             stats["keys_mutated_by_policy_query"] += 1
             if not bad:
@@ -692,17 +775,23 @@ def run(ctx):
             ctx.violation(sig, {"case": case, "clause": bad[0], "where": bad[1], "impl": res}, found=True)
             continue
         parsed[i] = (impl_rows, impl_pol)
+        n_nondyadic_rewards = exact_rewards(case, res)
         mk = model_kind(case)
         gen = mk == "esarsag"
         nsteps = sum(len(e["steps"]) for e in res["episodes"])
-        if nsteps > 20 * MAX_STEPS:
+        if nsteps > 40 * MAX_STEPS:
             stats["skipped_too_long_for_exact_arithmetic"] = stats.get("skipped_too_long_for_exact_arithmetic", 0) + 1
             continue
+        stats["episodes_longer_than_1000_steps"] = stats.get("episodes_longer_than_1000_steps", 0) + \
+            sum(1 for e in res["episodes"] if len(e["steps"]) > 1000)
+        stats["family_all"] = stats.get("family_all", {})
+        stats["family_all"][case.get("family", "plain")] = stats["family_all"].get(case.get("family", "plain"), 0) + 1
         clause, where = annotate(case, res)
         if clause:
             ctx.violation("C10:%s:%s" % (kind, clause), {"case": case, "failing_clause": clause, "where": where, "impl": res}, found=True)
             continue
-        if nsteps > (MAX_STEPS_EDGE if case.get("family") == "edge" else MAX_STEPS_GEN if gen else MAX_STEPS):
+        if nsteps > (MAX_STEPS_EDGE if case.get("family") == "edge" else MAX_STEPS_GEN if gen
+                     else MAX_STEPS // 2 if case.get("family") == "decimal" else MAX_STEPS):
             stats["long_runs_oracle_only"] += 1
             clause, where = search_failing(case, res, impl_rows, impl_pol)
             if clause:
@@ -761,6 +850,24 @@ def run(ctx):
         hit("policy_state_absent_from_table", any(s not in impl_rows for s in range(m["n"])))
         hit("initial_q:" + case["initial_q"]["kind"])
         hit("family_ties:" + kind, case.get("family") == "ties" and allsteps)
+        # audit round 2 classes
+        hit("(1)esarsa_eps_2^-27..2^-30_effective", kind == "esarsa" and 0 < ep_ <= F(1, 2**27) and F(case["alpha"]) > 0 and
+            any(not m["absorbing"][st["ns"]] and len(m["actions"][st["ns"]]) >= 2 for st in allsteps))
+        hit("(1)transition_row_with_probability_<=2^-20", any(0 < F(p) <= F(1, 2**20) for row in m["trans"].values() for x, p in row))
+        hit("(2)scale_base:" + ("none" if case.get("family") != "scale" else
+                                "2^20" if any(F(x) >= 2**19 for x in m["reward"].values()) else
+                                "2^10" if any(F(x) >= 2**9 for x in m["reward"].values()) else "0"))
+        hit("(3)non_dyadic_rewards_experienced", n_nondyadic_rewards > 0)
+        hit("(3)family_decimal_with_steps:" + kind, case.get("family") == "decimal" and allsteps)
+        hit("(4)one_shared_action_list_object", case.get("form") == "class" and case.get("shared_actions") and
+            all(x == m["actions"][0] for x in m["actions"]))
+        hit("(4)inputs_snapshot_compared")
+        hit("(5)second_problem_of_different_size", case.get("stages") and len({x["n"] for x in case["stages"]}) > 1)
+        hit("(5)stale_results_requeried_after_later_calls", bool(case.get("stages")))
+        hit("(5)problem_rebuilt_instead_of_reused", case.get("stages") and not case.get("reuse_mdp_object", True) and case.get("stage") == 2)
+        hit("(6)one_action_everywhere", m["nA"] == 1 and allsteps)
+        hit("(6)n_states_equals_n_actions", m["n"] == m["nA"])
+        hit("(6)int_typed_rewards", case.get("int_rewards") and allsteps)
         hit("immediate_repeat_of_same_state_action(self-loop,alpha>0):" + kind, F(case["alpha"]) > 0 and any(
             x["ns"] == x["s"] and y["s"] == x["s"] and y["a"] == x["a"]
             for e in res["episodes"] for x, y in zip(e["steps"], e["steps"][1:])))
@@ -870,7 +977,7 @@ def run(ctx):
         if bnd and 0 <= F(case["alpha"]) <= 1:
             interval_checked += 1
             lo, hi = bnd
-            slack = F(1, 10**9) * (1 + max(abs(lo), abs(hi)))
+            slack = F(1, 10**12) * (1 + max(abs(lo), abs(hi)))     # float rounding of the returned values only
             for s, rv in impl_rows.items():
                 for a, x in rv.items():
                     if not (lo - slack <= x <= hi + slack):
@@ -888,7 +995,10 @@ def run(ctx):
                 "30%% object-reuse sequences (ONE learner object trained on A, B, A with the same labels and independently drawn "
 "absorbing sets / action sets / rewards; each stage is one evaluation against its own MDP; the MDP object of A is reused, "
                 "20%% with its cached matrix views touched first; every run is repeated by a twin learner with msdm's default listener); "
-"10%% softmax-expectation family (expected SARSA, temperature 1/2 or 2, eps 0 or 1/20, step size > 0, distinct initial Q, 3-6 episodes); "
+"non-dyadic family (thirds/tenths/sevenths in probabilities, rewards, gamma, step size, eps); long-episode family (~1000-step episodes, "
+                "Fraction oracle only); scale family bases 2^20 (gap 2^-12), 2^10 (gap 2^-8), 0 (gap 2^-30); eps 2^-27/2^-30; B of a different size; "
+                "int-typed rewards; one shared action-list object; caller-object snapshots before/after; earlier results re-queried after later calls; "
+                "10%% softmax-expectation family (expected SARSA, temperature 1/2 or 2, eps 0 or 1/20, step size > 0, distinct initial Q, 3-6 episodes); "
                 "18%% tie family (>= 2 actions everywhere, non-zero constant / per-state-constant initial_q, temperature 0, eps in {0,1/20}: "
                 "tied NON-ZERO maximal Q-values at non-absorbing next states; expected SARSA weighted 3x); "
                 "10%% boundary family (gamma = 1-2^-20, step size / epsilon in {0, 2^-20, 2^-30, 1-2^-20, 1}, a transition row (1-k*2^-20, 2^-20, ..)); "
